@@ -56,6 +56,12 @@ def cmdrec(c):
     return {"verb": "PARSE-ERROR", "why": "unexpected verb " + v}
 
 
+def is_opaque(v):
+    """buffer objects: what the client stores for them without a serializer is not claimed (today: the text of str(v))"""
+    import array
+    return isinstance(v, (bytearray, memoryview, array.array))
+
+
 def value_bytes(v, encoding):
     if isinstance(v, bytes):
         return v
@@ -65,8 +71,11 @@ def value_bytes(v, encoding):
 LEGAL_KEYS = ["k", b"k", "key:with:colons", b"\x01\x7f\x80\xff", "a" * 250, b"b" * 250]
 ILLEGAL_KEYS = ["", b"", " ", b"\t", "\r\n", "a b", b"a b", " a", "a ", "a\r\nflush_all\r\n", b"k\r\nset x 0 0 1\r\nX",
                 "a\nb", "a\x00b", b"\x00", "k\tk", "k\x0bk", b"k\x0ck", "c" * 251, b"d" * 300, "ké", "€uro"]
+import array as _array
 VALUES = [b"v", b"", b"x\r\nget k\r\n", b"END\r\n", b"VALUE k 0 1\r\nz\r\nEND\r\n", b"\x00\xff" * 3, b"A" * 5000,
-          "text", 5, -17]
+          "text", 5, -17,
+          bytearray(b"buf\r\n"), memoryview(b"view"), memoryview(_array.array("H", [258, 772, 1286])), _array.array("I", [1, 2, 3]),
+          memoryview(b"abcdefgh")[::2]]
 INT_OK = {"exp": [0, 1, -1, 2 ** 63 - 1, -(2 ** 63), 2592001], "flags": [None, 0, 1, 2 ** 32 - 1],
           "cas": [0, 1, U64 - 1, b"123", "456"], "delta": [0, 1, U64 - 1]}
 INT_BAD = {"exp": ["10", 1.5, None, b"3"], "cas": ["abc", -1, 1.5, None, b"1 2", "12\n", b"12\n", b"7 noreply", "7\r\n", " 7", b""],
@@ -163,7 +172,8 @@ def run_case(c, stacks):
           "prefix": list(c.prefix) if op != "stats" else [], "nrarg": c.nrarg, "dnr": c.dnr, "exp": dec(c.exp), "flags": dec(flags),
           "cas": dec(c.cas), "delta": dec(c.delta), "badarg": c.badarg or vb is None,
           "data": [desc(vb) if vb is not None else "?"] * nkeys, "lens": [str(len(vb)) if vb is not None else "?"] * nkeys,
-          "outcome": outcome, "nsent": len(raw), "cmds": cmds, "leftover": p.partial}
+          "outcome": outcome, "nsent": len(raw), "cmds": cmds, "leftover": p.partial,
+          "opaque": bool(nkeys) and is_opaque(c.value) and c.serde != "pickle"}
     # the bytes themselves, for the TLA+ tokenizer (spec/Proto.tla)
     ev["hasraw"] = len(raw) <= RAW_MAX
     ev["raw"] = list(raw) if ev["hasraw"] else []
